@@ -247,3 +247,15 @@ MANIFEST_TEXT['C16'] = (
  "Partial proof. Machine-checked for all states: adding triggers to a world reactor is a registration of its single statically installed system under a persistent handle (which changes no state besides queuing table insertions: nothing is spawned, no auto-despawn signal exists for it), removing triggers is a revocation, which despawns nothing and touches no callback; for an entity world reactor, add attaches the datum and registers the entity's triggers, a run caused by an entity is shown exactly the datum stored for that entity, remove revokes and cleans every named entity exactly once, and the cleanup removes the datum exactly when the entity holds no handle of the reactor's system any more and leaves every other datum alone. The whole-run frame is not a theorem; it is checked by differential runs of the xw profile (add / remove / trigger / despawn over several entities and both reactors, removal bundles naming several entities with partial removal) comparing the (reactor, entity) data set after every op and the datum seen by every run.",
  "Trusted: Coq kernel; model faithfulness (differential); Bevy semantics as modelled. Partial: whole-run frame and never-duplicated/never-despawned are correspondence only.",
  "Coq proof of the step-level behaviour (partial) + model/implementation correspondence on local data and runs", "DESIGN.md §5 C16")
+
+PROPS['C07'] = P(
+    ['persistent_handle_is_never_counted_partial', 'persistent_registration_changes_no_state_partial', 'clone_adds_one_reference_partial',
+     'drop_takes_one_reference_partial', 'last_reference_sends_the_reactor_once_partial', 'dropping_a_handle_despawns_nothing_partial',
+     'collection_drains_the_channel_partial', 'despawn_drops_the_system_state_partial'],
+    ['lifetime', 'once', 'dispatch', 'mixed'], 'lifetime', determined=False,
+    assumes=['PARTIAL: step-level theorems for all states; the global reference count (live references = registrations + in-flight registration commands + pending despawn reactions, at every point of every run), hence "alive exactly as long as ..., collected by the first collection after ...", is not a theorem: it rests on the correspondence (live entities, state drops and table sizes compared after every top-level op, collections at arbitrary points) ',
+             'the signal / channel / collector are verified against the real AutoDespawner for every interleaving in C10'])
+MANIFEST_TEXT['C07'] = (
+ "Partial proof. Machine-checked for all states: a persistent registration carries no signal and changes no state; an auto-despawn handle is one reference to one signal (clone +1, drop -1), the drop of the last reference sends the reactor entity to the collector exactly once, and dropping a handle despawns nothing; a collection drains the channel completely, including what its own despawns add, and every collected entity is dead afterwards; despawning a reactor drops its boxed callback. The global reference count over whole runs is not a theorem: it is checked by differential runs of the lifetime profile (all three modes, empty bundles, bundles naming dead entities, every order of revoke / fire / despawn / collect) comparing live entities, system-state drops and table sizes after every top-level op. The signal and collector are verified against the real AutoDespawner in C10.",
+ "Trusted: Coq kernel; model faithfulness (differential); Bevy semantics as modelled. Partial: the global reference count (no leak / no premature despawn over whole runs) is correspondence only.",
+ "Coq proof of the step-level behaviour (partial) + model/implementation correspondence on live entities and state drops", "DESIGN.md §5 C07")
